@@ -1,6 +1,7 @@
 import functools
 
 from dask.dataframe import methods
+from dask.dataframe.utils import make_meta, meta_nonempty
 from dask.utils import M, is_dataframe_like, is_series_like
 
 from dask_expr._expr import Blockwise, Expr, Projection, plain_column_projection
@@ -18,7 +19,12 @@ class CumulativeAggregations(Expr):
 
     @functools.cached_property
     def _meta(self):
-        return self.frame._meta
+        # The result dtype can differ from the input (bool.cumsum() -> int64)
+        return make_meta(
+            self.chunk_operation(
+                meta_nonempty(self.frame._meta), self.axis, self.skipna
+            )
+        )
 
     def _lower(self):
         chunks = CumulativeBlockwise(
@@ -39,7 +45,9 @@ class CumulativeBlockwise(Blockwise):
 
     @functools.cached_property
     def _meta(self):
-        return self.frame._meta
+        return make_meta(
+            self.operation(meta_nonempty(self.frame._meta), self.axis, self.skipna)
+        )
 
     @functools.cached_property
     def operation(self):
